@@ -196,7 +196,7 @@ class Gen:
             else:
                 sd = P.Parameter.from_unary(P.ScaledSigmoidParameter((K,), vmin=0.25, vmax=2.0), tensor(dy_array(rng, (K,), -4, 4)))
             lp = None
-            if rng.random() < 0.3:
+            if rng.random() < o.get("gau_lp_prob", 0.3):
                 lp = P.Parameter.from_input(tensor(dy_array(rng, (K,), -4, 4)))
             return L.GaussianLayer(sc, K, mean=mean, stddev=sd, log_partition=lp)
         if kind == "poly":
@@ -257,7 +257,7 @@ class Gen:
         parts0 = self.partition(vs)
         arity = len(parts0)
         if ptype == "kron":
-            Kc = rng.choice([1, 2]) if arity == 2 else rng.choice([1, 1, 2])
+            Kc = rng.choice([1, 2, 2, 3] if o.get("kron_units3") else [1, 2]) if arity == 2 else rng.choice([1, 1, 2])
             pu = Kc**arity
         else:
             Kc = K if (n_alt == 1 and rng.random() < 0.4) else rng.choice([1, 2, 3])
